@@ -10,6 +10,7 @@ import (
 
 	"verif/internal/ast"
 	"verif/internal/canon"
+	"verif/internal/cls"
 	"verif/internal/eng"
 	"verif/internal/gen"
 	"verif/internal/h"
@@ -62,6 +63,38 @@ func gen1(t *rapid.T) Case {
 			}
 		}
 		root := deep(rapid.IntRange(2, 4).Draw(t, "deepd"))
+		if rapid.IntRange(0, 4).Draw(t, "chain") == 0 {
+			// a run of 3-14 consecutive single-character loops (each leaves one backtracking frame),
+			// left-to-right, under RightToLeft, or repeated inside a lookbehind: the reserve the
+			// interpreter keeps per attempt is computed from the program's count of such opcodes
+			k := rapid.IntRange(3, 14).Draw(t, "chainlen")
+			chain := ast.Seq()
+			for i := 0; i < k; i++ {
+				lo := rune('a' + i%6)
+				var atom *ast.Node
+				switch rapid.IntRange(0, 2).Draw(t, "chainatom") {
+				case 0:
+					atom = ast.Class(&cls.Expr{Items: []cls.Item{{Kind: cls.Char, Lo: lo}, {Kind: cls.Char, Lo: lo + 1}}})
+				case 1:
+					atom = ast.Lit(lo)
+				default:
+					atom = ast.Class(&cls.Expr{Neg: true, Items: []cls.Item{{Kind: cls.Char, Lo: 'x'}, {Kind: cls.Char, Lo: lo + 2}}})
+				}
+				chain.Kids = append(chain.Kids, ast.Quant(atom, 0, -1, rapid.IntRange(0, 3).Draw(t, "chainlazy") == 0))
+			}
+			chain.Kids = append(chain.Kids, ast.Lit('x'))
+			switch rapid.IntRange(0, 2).Draw(t, "chainwrap") {
+			case 0:
+				root = chain
+			case 1:
+				root = ast.Seq(chain, ast.Group(ast.GLookbehind, chain.Clone()))
+			default:
+				root = ast.Seq(ast.Group(ast.GCap, chain), ast.Group(ast.GNegLookbehind, ast.Seq(chain.Clone(), ast.Lit('q'))))
+			}
+			if rapid.Bool().Draw(t, "chainrtl") {
+				o |= regexp2.RightToLeft
+			}
+		}
 		gen.Resolve(t, root, base, false, cfg)
 		c.Spec = eng.Spec{Options: int32(o), Pattern: ast.Print(root, ast.PrintOpts{})}
 		c.AST = root
